@@ -303,6 +303,22 @@ def check(P, R):
             cur_ = cur_.func.value
         R.ob('C07.d', fb_, c_, okb_, text='the scanner is given the boundary parameter unaltered', detail=detb_,
              why='the form round-trips for all legal boundary strings', key_extra='boundary-arg')
+    # ... and it is cut out of the header as sent: not out of a normalised (lower-cased / stripped of parameters) view of it
+    for c_ in [x for x in walk_shallow(fb_.node) if isinstance(x, ast.Call) and call_attr(x) in ('match', 'search', 'fullmatch') and x.args
+               and 'BOUNDARY' in (dotted(x.func.value) or '').upper()]:
+        at_ = fb_.cfg.node_of_stmt(c_)[0]
+        ax_ = T.expand(fb_, c_.args[0], at_)
+        raw_ = isinstance(ax_, ast.Call) and call_attr(ax_) == 'get' and 'environ' in src(ax_.func.value) and ax_.args and is_const(ax_.args[0], 'CONTENT_TYPE')
+        raw_ = raw_ or (isinstance(ax_, ast.Subscript) and 'environ' in src(ax_.value) and is_const(ax_.slice, 'CONTENT_TYPE'))
+        via_prop = [x for x in ast.walk(ax_) if isinstance(x, ast.Attribute) and isinstance(x.value, ast.Name) and x.value.id == 'self' and x.attr not in ('environ',)]
+        lowered = [x for x in ast.walk(ax_) if isinstance(x, ast.Call) and call_attr(x) in ('lower', 'upper', 'casefold', 'title')]
+        if not raw_ and not via_prop and not lowered:
+            R.undecided('C07.d', fb_, c_, 'boundary source', f'`{short(ax_)}` is neither the raw CONTENT_TYPE header nor a recognised view of it')
+            continue
+        R.ob('C07.d', fb_, c_, bool(raw_), text='the boundary is cut out of the raw Content-Type header', detail='' if raw_ else
+             f'the boundary is matched in `{short(ax_)}`, a normalised view of the header (request.content_type is lower-cased as a whole): a boundary with upper-case '
+             f'letters (----WebKitFormBoundary7MA4YWxkTrZu0gW) reaches the scanner lower-cased and its delimiter lines are never found',
+             why='the form round-trips for all legal boundary strings', key_extra='boundary-source')
 
     # ---- c
     po = P.func(f'{BM}:BodyMixin.POST')
